@@ -154,8 +154,62 @@ def fb_global_rng_sites():
     return "Definition gen_global_rng_sites : list (Z * Z) := [(-1, -1)]."
 
 
+def _is_setexpr(e, setnames):
+    if isinstance(e, (ast.Set, ast.SetComp)):
+        return True
+    if isinstance(e, ast.Call):
+        if ast.unparse(e.func) in ("set", "frozenset"):
+            return True
+        if isinstance(e.func, ast.Attribute) and e.func.attr in ("union", "intersection", "difference", "symmetric_difference"):
+            return True
+    if isinstance(e, ast.BinOp) and isinstance(e.op, (ast.Sub, ast.BitAnd, ast.BitOr, ast.BitXor)):
+        def viewish(x):
+            return (isinstance(x, ast.Call) and isinstance(x.func, ast.Attribute) and x.func.attr in ("keys", "items")) \
+                or _is_setexpr(x, setnames)
+        if viewish(e.left) or viewish(e.right):
+            return True
+    return isinstance(e, ast.Name) and e.id in setnames
+
+
+def scan_unordered_iteration():
+    """places in mesa/ (visualization excluded) where the ELEMENTS of a set / dict-view difference are consumed in iteration
+    order - `for`, a comprehension, list()/tuple()/next()/iter()/enumerate()/zip(), random choice/sample/shuffle - without
+    going through sorted(): the order of such a collection of objects depends on memory addresses, i.e. on what ran earlier
+    in the process.  A local name counts when it is bound to such an expression in the same function."""
+    out = []
+    for rel in _py_files():
+        tree = _parse(rel)
+        for f in [n for n in ast.walk(tree) if isinstance(n, (ast.FunctionDef, ast.AsyncFunctionDef))]:
+            setnames = set()
+            for n in ast.walk(f):
+                if isinstance(n, ast.Assign) and len(n.targets) == 1 and isinstance(n.targets[0], ast.Name) and _is_setexpr(n.value, set()):
+                    setnames.add(n.targets[0].id)
+            for n in ast.walk(f):
+                it = None
+                if isinstance(n, (ast.For, ast.comprehension)):
+                    it = n.iter
+                elif isinstance(n, ast.Call) and ast.unparse(n.func) in ("list", "tuple", "next", "iter", "enumerate", "zip") and n.args:
+                    it = n.args[0]
+                elif isinstance(n, ast.Call) and isinstance(n.func, ast.Attribute) and n.func.attr in ("choice", "sample", "shuffle", "choices") and n.args:
+                    it = n.args[0]
+                if it is not None and _is_setexpr(it, setnames):
+                    out.append((rel, it.lineno, f"{f.name}: iterates {ast.unparse(it)[:70]}"))
+    return sorted(set(out))
+
+
+def c_unordered_iteration_sites():
+    files = _py_files()
+    sites = scan_unordered_iteration()
+    body = "; ".join(f"({files.index(f)}, {ln})" for f, ln, _ in sites)
+    comment = "".join(f"\n   {f}:{ln}: {t}" for f, ln, t in sites)
+    return (f"(* iteration over sets / dict-view differences without a stable order:{comment or ' none'} *)\n"
+            f"Definition gen_unordered_iteration_sites : list (Z * Z) := [{body}].")
+
+
 HEADER = ""
 CONSTRUCTS = [
+    ("unordered_iteration_sites", "mesa/**/*.py", c_unordered_iteration_sites,
+     lambda: "Definition gen_unordered_iteration_sites : list (Z * Z) := [(-1, -1)]."),
     ("mte_choice_sorted", "mesa/space.py", c_mte_choice_sorted, fb_mte_choice_sorted),
     ("global_rng_sites", "mesa/**/*.py", c_global_rng_sites, fb_global_rng_sites),
 ]
